@@ -240,7 +240,18 @@ def tySStmt : Bool → Option Ty → TEnv → Expr → Res (Ty × TEnv)
   | lp, r, g, .destruct xs e => (tyS lp r g e).bind fun te =>
       match te with
       | .tup ts => if ts.length == xs.length then .ok (te, bindAll (List.zip xs ts) g) else .ill
-      | .multi _ => .unsup
+      | .multi _ =>
+        -- a union of tuple types: `is_tuple`, ONE common length (`tuple_len`), the names typed position by position with the
+        -- join of the members' element types (`flatten_tuple`)
+        if !isTuple te then .ill else
+        (match tupleLen te with
+         | none => .ill
+         | some len =>
+           if len == xs.length then
+             (match flattenTuple te with
+              | some ts => .ok (te, bindAll (List.zip xs ts) g)
+              | none => .unsup)
+           else .ill)
       | .never => .unsup
       | _ => .ill
   | lp, _, g, .fndecl x ps rt body =>
